@@ -378,6 +378,9 @@ func (e *Exec) lookupCallee(common *ssa.CallCommon, fnv Val) calleeInfo {
 	}
 	if p, ok := common.Value.(*ssa.Parameter); ok {
 		keys = append(keys, shortID(e.fn.String())+"."+p.Name())
+		if o := e.fn.Origin(); o != nil {
+			keys = append(keys, shortID(o.String())+"."+p.Name())
+		}
 	}
 	if u, ok := common.Value.(*ssa.UnOp); ok && u.Op == token.MUL {
 		if g, ok := u.X.(*ssa.Global); ok {
@@ -497,6 +500,8 @@ func (e *Exec) doCall(common *ssa.CallCommon, fnv Val, recv *Val, args []Val, st
 		}
 	}
 
+	e.ghostAt(ci.name, ord, true, st)
+	defer e.ghostAt(ci.name, ord, false, st)
 	if ci.con == nil {
 		// unknown callee: everything may change, result arbitrary
 		if ci.fn != nil && e.c.P.isZapPkg(pkgOf(ci.fn)) {
@@ -511,6 +516,7 @@ func (e *Exec) doCall(common *ssa.CallCommon, fnv Val, recv *Val, args []Val, st
 	} else {
 		con := ci.con
 		con.Used = true
+		e.checkFnArgs(ci, all, ord, st, pos)
 		if con.Kind == "extern" || con.Kind == "iface" || con.Kind == "callback" || con.Flags["trusted"] {
 			c.assumed[con.Kind+" "+con.ID] = true
 		}
@@ -539,6 +545,17 @@ func (e *Exec) doCall(common *ssa.CallCommon, fnv Val, recv *Val, args []Val, st
 		for i, r := range con.Requires {
 			g := e.evalBool(csc, r)
 			c.oblige("pre", fmt.Sprintf("pre[%d]@call%d:%s", i+1, ord, lastSeg(ci.name)), st.pc, g, "precondition of "+ci.name+": "+r.Src, e.pos(pos))
+			c.factUnder(st.pc, g)
+		}
+		if ci.fn != nil && ci.fn.Signature.Recv() != nil && len(all) > 0 && len(ci.fn.Params) > 0 {
+			if inv, ti := e.typeInvOf(ci.fn.Params[0].Type(), all[0], pre); ti != nil {
+				c.oblige("pre", fmt.Sprintf("pre-typeinv@call%d:%s", ord, lastSeg(ci.name)), st.pc, inv, "receiver of "+ci.name+" satisfies the invariant of "+ti.Type, e.pos(pos))
+				c.factUnder(st.pc, inv)
+			}
+		}
+		for i, r := range con.Assumes {
+			g := e.evalBool(csc, r)
+			c.oblige("pre", fmt.Sprintf("pre-assumed[%d]@call%d:%s", i+1, ord, lastSeg(ci.name)), st.pc, g, "precondition of "+ci.name+": "+r.Src, e.pos(pos))
 			c.factUnder(st.pc, g)
 		}
 		// panics clause of the callee
@@ -1040,14 +1057,19 @@ func (e *Exec) callModifies(common *ssa.CallCommon, comps map[string]bool) bool 
 // ------------------------------------------------------------ frame of the function under verification
 
 func (e *Exec) checkFrame(st *State, pos token.Pos) {
+	e.checkFrameAgainst(e.con, e.scope(e.c.entry, e.c.entry), "frame", st, pos)
+}
+
+// checkFrameAgainst: at a return, every component that differs from the entry state differs only
+// where con's modifies clause (resolved in sc, an entry-state scope) allows.
+func (e *Exec) checkFrameAgainst(con *Contract, sc *Scope, label string, st *State, pos token.Pos) {
 	c := e.c
-	if !e.con.ModSet {
+	if !con.ModSet {
 		return
 	}
-	sc := e.scope(c.entry, c.entry)
 	allowedWhole := map[string]bool{}
 	allowedAt := map[string][]string{}
-	for _, item := range e.con.Modifies {
+	for _, item := range con.Modifies {
 		switch item {
 		case "$all":
 			return
@@ -1069,7 +1091,7 @@ func (e *Exec) checkFrame(st *State, pos token.Pos) {
 			}
 		}
 	}
-	for _, gs := range e.con.GhostSets {
+	for _, gs := range con.GhostSets {
 		sc.where = "ghost-set " + gs.Name
 		idx := sc.rvalue(sc.eval(gs.Idx))
 		allowedAt["G:"+gs.Name] = append(allowedAt["G:"+gs.Name], idx.T)
@@ -1100,7 +1122,7 @@ func (e *Exec) checkFrame(st *State, pos token.Pos) {
 		} else {
 			goal = fmt.Sprintf("(= %s %s)", cur, ent)
 		}
-		c.oblige("frame", fmt.Sprintf("frame[%s]@ret%d", n, e.retCount), st.pc, goal, "only declared locations of "+n+" are modified", e.pos(pos))
+		c.oblige("frame", fmt.Sprintf("%s[%s]@ret%d", label, n, e.retCount), st.pc, goal, "only declared locations of "+n+" are modified ("+label+")", e.pos(pos))
 	}
 }
 
@@ -1451,4 +1473,74 @@ func mentionsTracks(x Expr, con *Contract) bool {
 		return false
 	}
 	return rec(x)
+}
+
+// ghostAt performs the ghost assignments the contract attaches to a call site.
+func (e *Exec) ghostAt(callee string, ord int, before bool, st *State) {
+	c := e.c
+	for _, g := range e.con.GhostAts {
+		if g.Ordinal != ord || g.Before != before || !(g.Callee == callee || g.Callee == lastSeg(callee)) {
+			continue
+		}
+		sc := e.scope(st.heap, c.entry)
+		sc.where = "ghost-at " + g.Name
+		sc.evalIdent(g.Name)
+		idx := sc.rvalue(sc.eval(g.Idx))
+		val := sc.rvalue(sc.eval(g.Val.E))
+		st.heap = c.hstore(st.heap, "G:"+g.Name, idx.T, val.T)
+	}
+}
+
+// checkFnArgs: a function value passed for a parameter that the callee calls under a callback
+// contract must be a function known to satisfy that contract (its own contract says
+// "refines callback:<callee>.<param>", which is verified against its body, or assumed for externs).
+func (e *Exec) checkFnArgs(ci calleeInfo, all []Val, ord int, st *State, pos token.Pos) {
+	c := e.c
+	if ci.fn == nil {
+		return
+	}
+	ids := []string{shortID(ci.fn.String())}
+	if o := ci.fn.Origin(); o != nil {
+		ids = append(ids, shortID(o.String()))
+	}
+	for i, p := range ci.fn.Params {
+		if _, ok := p.Type().Underlying().(*types.Signature); !ok || i >= len(all) {
+			continue
+		}
+		key := ""
+		for _, id := range ids {
+			if _, ok := c.CS.ByID["callback "+id+"."+p.Name()]; ok {
+				key = id + "." + p.Name()
+			}
+		}
+		if key == "" {
+			continue
+		}
+		okArg := false
+		a := all[i]
+		if a.Fn != nil && len(a.Fn.Bindings) == 0 {
+			aids := []string{shortID(a.Fn.Fn.String())}
+			if o := a.Fn.Fn.Origin(); o != nil {
+				aids = append(aids, shortID(o.String()))
+			}
+			for _, aid := range aids {
+				if acon := c.CS.ByID["func "+aid]; acon != nil {
+					for _, r := range acon.Refines {
+						if r == "callback:"+key {
+							okArg = true
+							if acon.Kind == "extern" {
+								c.assumed["extern "+acon.ID+" satisfies callback "+key] = true
+							}
+						}
+					}
+				}
+			}
+		}
+		goal := "false"
+		if okArg {
+			goal = "true"
+		}
+		c.oblige("fnarg", fmt.Sprintf("fnarg[%s]@call%d:%s", p.Name(), ord, lastSeg(ci.name)), st.pc, goal,
+			"function passed for "+key+" is declared (and verified) to satisfy that callback contract", e.pos(pos))
+	}
 }
